@@ -39,6 +39,8 @@ class Arr:
     maskof: frozenset = E  # for `.mask` views: alias of the array it is the mask of
     dataof: frozenset = E  # for `.data` views: alias of the array it is the data of
     constmask: bool = False  # mask built from a constant
+    layermask: bool = False  # stacked value whose mask differs per layer (each layer keeps its own input's mask)
+    maskalias: frozenset = E  # inputs whose mask buffer this value's mask may share (numpy.ma.array(x, mask=m) does not copy m)
 
 
 @dataclass(frozen=True)
@@ -198,7 +200,12 @@ class Interp(object):
         self.res.findings.append((kind, getattr(node, "lineno", 0), msg, self.fkey(fr), node))
 
     def write_site(self, base, node, what, fr):
-        self.res.writes.append(Write(getattr(node, "lineno", 0), what, base.alias | base.dataof | base.maskof if isinstance(base, Arr) else E, node, self.fkey(fr), via=self.inline_via[-1] if self.inline_via else None))
+        al = E
+        if isinstance(base, Arr):
+            al = base.alias | base.dataof | base.maskof
+            if base.kind == "masked" and not what.startswith("attribute store"):
+                al = al | base.maskalias  # a store into a masked array also rewrites its mask buffer
+        self.res.writes.append(Write(getattr(node, "lineno", 0), what, al, node, self.fkey(fr), via=self.inline_via[-1] if self.inline_via else None))
 
     def q(self, e, fr):
         try:
@@ -306,6 +313,14 @@ class Interp(object):
             self.aug(s, fr)
         elif isinstance(s, ast.Return):
             v = self.ev(s.value, fr) if s.value is not None else Other("none")
+            single = env.get("__single__")
+            if isinstance(v, Arr) and single:
+                # on a branch where the input list is known to hold one element, "the rest" is empty: covering/using it is vacuous
+                for L in single:
+                    if (L + "#0") in v.D:
+                        v = replace(v, D=v.D | {L + "#r"})
+                    if (L + "#0") in v.M:
+                        v = replace(v, M=v.M | {L + "#r"})
             fr.returns.append((s, v))
             env["__dead__"] = True
         elif isinstance(s, ast.Raise):
@@ -416,6 +431,14 @@ class Interp(object):
             neg = not neg
             t = t.operand
         want = take != neg
+        if isinstance(t, ast.Compare) and len(t.ops) == 1 and isinstance(t.left, ast.Call) and isinstance(t.left.func, ast.Name) and t.left.func.id == "len" and t.left.args and isinstance(t.comparators[0], ast.Constant):
+            lst = self.ev(t.left.args[0], fr) if isinstance(t.left.args[0], ast.Name) else None
+            c = t.comparators[0].value
+            op = t.ops[0]
+            one = (isinstance(op, ast.Eq) and c == 1 and want) or (isinstance(op, ast.Lt) and c == 2 and want) or (isinstance(op, ast.LtE) and c == 1 and want) \
+                or (isinstance(op, ast.NotEq) and c == 1 and not want) or (isinstance(op, ast.Gt) and c == 1 and not want) or (isinstance(op, ast.GtE) and c == 2 and not want)
+            if one and isinstance(lst, Lst) and lst.L and lst.part == "all":
+                fr.env["__single__"] = frozenset(fr.env.get("__single__", frozenset()) | {lst.L})
         if isinstance(t, ast.Compare) and len(t.ops) == 1 and isinstance(t.ops[0], (ast.In, ast.NotIn)):
             base = fr.env.get(t.comparators[0].id) if isinstance(t.comparators[0], ast.Name) else None
             if isinstance(base, Kw) and isinstance(t.left, ast.Constant):
@@ -440,7 +463,7 @@ class Interp(object):
             if isinstance(b, Arr) and isinstance(a, Arr) and a != b:
                 j = self.join(b, a)
                 # universal loop summary: coverage gained in the body for tokens of the iterated sub-list is kept
-                env[name] = replace(j, M=b.M | (a.M & ST) | (a.M & b.M))
+                env[name] = replace(j, M=(a.M & ST) | (a.M & b.M))
             elif a != b and not isinstance(a, Kw):
                 env[name] = self.join(b, a)
         if s.orelse:
@@ -464,6 +487,12 @@ class Interp(object):
         for k in keys:
             if k == "__dead__":
                 continue
+            if k == "__single__":
+                vals = [e.get(k, frozenset()) for e in envs]
+                common = frozenset.intersection(*vals) if vals else frozenset()
+                if common:
+                    out[k] = common
+                continue
             vals = [e[k] for e in envs if k in e]
             # a name bound on some paths only keeps the value of the paths that bind it (reading it elsewhere is a NameError)
             v = vals[0]
@@ -482,6 +511,7 @@ class Interp(object):
                 dtprov=a.dtprov | b.dtprov, rng=(a.rng[0] if a.rng[0] == b.rng[0] else None, a.rng[1] if a.rng[1] == b.rng[1] else None),
                 sel=a.sel if a.sel == b.sel else None, sorted0=a.sorted0 and b.sorted0, filearr=a.filearr or b.filearr,
                 maskof=a.maskof | b.maskof, dataof=a.dataof | b.dataof, constmask=a.constmask or b.constmask,
+                layermask=a.layermask or b.layermask, maskalias=a.maskalias | b.maskalias,
             )
         if isinstance(a, Scal) and isinstance(b, Scal):
             return Scal(D=a.D | b.D, Pg=a.Pg | b.Pg, dt=a.dt | b.dt, const=a.const if a.const == b.const else None,
@@ -564,15 +594,16 @@ class Interp(object):
         if isinstance(it, Kw):
             return Other("str")
         if isinstance(it, Arr):
-            self.finding("equivariance", node, "python-level iteration over an array walks a data axis: %s" % _src(node), fr)
-            return replace(it, shape="unknown", alias=it.alias)
+            if it.shape in ("same", "stacked", "rankdep"):
+                self.finding("equivariance", node, "python-level iteration over an array walks a data axis: %s" % _src(node), fr)
+            return Scal(D=it.D, Pg=it.Pg | it.Pc) if it.shape == "flat" else replace(it, shape="unknown", alias=it.alias)
         self.unsupported("iteration over %r" % (it,), node, fr)
 
     def part_elem(self, lst):
         t = toks(lst.L, lst.part)
         e = lst.elem
         sub = lambda s: frozenset(x for y in s for x in (t if y == "ELEM" else {y}))  # noqa: E731
-        return replace(e, alias=sub(e.alias), M=sub(e.M), D=sub(e.D), Pc=sub(e.Pc), Pg=sub(e.Pg), dtprov=sub(e.dtprov), maskof=sub(e.maskof), dataof=sub(e.dataof))
+        return replace(e, alias=sub(e.alias), M=sub(e.M), D=sub(e.D), Pc=sub(e.Pc), Pg=sub(e.Pg), dtprov=sub(e.dtprov), maskof=sub(e.maskof), dataof=sub(e.dataof), maskalias=sub(e.maskalias))
 
     def assign(self, t, v, fr, stmt):
         env = fr.env
@@ -585,6 +616,11 @@ class Interp(object):
             elif isinstance(v, Other):
                 for tt in t.elts:
                     self.assign(tt, Other("opaque"), fr, stmt)
+            elif isinstance(v, Arr):
+                if v.shape in ("same", "stacked"):
+                    self.finding("equivariance", stmt, "unpacking an array walks its first axis: %s" % _src(stmt), fr)
+                for tt in t.elts:
+                    self.assign(tt, replace(v, shape="unknown"), fr, stmt)
             else:
                 self.unsupported("unpacking of %r" % (v,), stmt, fr)
         elif isinstance(t, ast.Subscript):
@@ -681,6 +717,17 @@ class Interp(object):
             hidden_only = True
         if hidden_only:
             return base
+        M = base.M
+        if base.kind == "masked":
+            # A9 (amended): a store of an unmasked value clears the (soft) mask at the selected cells.  Cells whose *index*
+            # entry is masked keep their mask, so coverage survives only for inputs whose mask the index itself carries.
+            vM = v.M if isinstance(v, Arr) and v.kind == "masked" else E
+            if isinstance(idx, Arr) and idx.isbool and idx.kind == "masked":
+                M = base.M & (idx.M | vM)
+            elif isinstance(idx, Other) and idx.tag == "slice" and idx.info == (None, None) and isinstance(v, Arr) and v.kind == "masked":
+                M = v.M
+            else:
+                M = base.M & vM
         for x in (idx, v):
             if isinstance(x, Arr):
                 D |= x.D
@@ -697,6 +744,11 @@ class Interp(object):
             elif isinstance(x, Scal):
                 D |= x.D
                 Pg |= x.Pg
+            elif isinstance(x, Other) and x.tag == "index1":
+                a = x.info
+                D |= a.D
+                if x is idx and base.shape == "same":
+                    self.finding("equivariance", tnode, "`%s` is indexed with one component of numpy.where(...): for rank >= 2 whole rows/slabs are selected instead of cells" % _src(tnode), fr)
             elif isinstance(x, Other) and x.tag == "index":
                 a = x.info
                 D |= a.D
@@ -710,7 +762,7 @@ class Interp(object):
                 self.finding("equivariance", tnode, "positional index store on data axes: %s" % _src(tnode), fr)
             elif isinstance(x, Scal) and x is idx and base.shape == "same":
                 self.finding("equivariance", tnode, "positional index store on a data axis: %s" % _src(tnode), fr)
-        return replace(base, D=D, Pc=Pc, Pg=Pg, rng=rng)
+        return replace(base, D=D, Pc=Pc, Pg=Pg, rng=rng, M=M)
 
     def aug(self, s, fr):
         tv = self.ev(s.target, fr)
@@ -964,7 +1016,7 @@ class ArrayInterp(Interp):
                 self.finding("filtered-inputs", e, "inputs are filtered before use: %s" % _src(e), fr)
             t = toks(it.L, it.part)
             gen = lambda s: frozenset("ELEM" if x in t else x for x in s)  # noqa: E731
-            tmpl = replace(v, alias=gen(v.alias), M=gen(v.M), D=gen(v.D), Pc=gen(v.Pc), Pg=gen(v.Pg), dtprov=gen(v.dtprov), maskof=gen(v.maskof), dataof=gen(v.dataof))
+            tmpl = replace(v, alias=gen(v.alias), M=gen(v.M), D=gen(v.D), Pc=gen(v.Pc), Pg=gen(v.Pg), dtprov=gen(v.dtprov), maskof=gen(v.maskof), dataof=gen(v.dataof), maskalias=gen(v.maskalias))
             return Lst("masks" if (v.isbool and v.maskof) else "arrs", L=it.L, part=it.part, elem=tmpl)
         if isinstance(v, Scal):
             D = v.D
@@ -1060,6 +1112,8 @@ class ArrayInterp(Interp):
         if isinstance(base, Arr):
             return self.sub_arr(base, idx, e, fr)
         if isinstance(base, Other):
+            if base.tag == "index":
+                return Other("index1", base.info)
             if base.tag == "ncds":
                 return Other("ncvar")
             if base.tag == "ncvar":
@@ -1120,7 +1174,7 @@ class ArrayInterp(Interp):
                 if not base.sorted0:
                     sel = ("Layer", idx.const)
                 self.res.layer_reads.append((e, sel, base.sorted0, self.fkey(fr)))
-                return replace(base, shape="same" if base.shape == "stacked" else "unknown", sel=sel, alias=base.alias)
+                return replace(base, shape="same" if base.shape == "stacked" else "unknown", sel=sel, alias=base.alias, M=E if base.layermask else base.M, layermask=False)
             if is_slice:
                 lo, hi = idx.info
                 if lo is not None and hi is None and isinstance(lo, Scal) and lo.sym and lo.sym.startswith("-"):
@@ -1146,6 +1200,10 @@ class ArrayInterp(Interp):
             pc = base.Pc | (idx.D if idx.kind == "masked" else idx.Pc)
             return replace(base, shape="flat", alias=self.S(e), D=base.D | idx.D, Pc=pc, rng=(None, None), cmp=None, maskof=E,
                            dataof=E, M=base.M if base.kind == "masked" else E)
+        if isinstance(idx, Other) and idx.tag == "index1":
+            if base.shape == "same":
+                self.finding("equivariance", e, "`%s` is indexed with one component of numpy.where(...): for rank >= 2 whole rows/slabs are selected instead of cells" % _src(e), fr)
+            return replace(base, alias=self.S(e), D=base.D | idx.info.D, rng=(None, None), shape="unknown")
         if isinstance(idx, Other) and idx.tag == "index":
             a = idx.info
             return replace(base, alias=self.S(e), D=base.D | a.D, Pc=base.Pc | a.Pc, rng=(None, None), shape="flat" if base.shape == "same" else base.shape)
@@ -1580,7 +1638,10 @@ class ArrayInterp(Interp):
         ax0 = isinstance(ax, Scal) and ax.const == 0
         self.res.layer_reduces.append((e, base.sel, what, self.fkey(fr)))
         if base.shape == "stacked" and ax0:
-            return replace(base, shape="same", alias=self.S(e), dt=F_ if what in ("mean", "std", "var", "median") else base.dt, rng=(None, None), sorted0=False, maskof=E, dataof=E)
+            # A12: with one mask per layer a layer-axis reduction skips masked layers, so a cell missing in only some
+            # inputs comes out present; only a mask shared by all layers (the broadcast union) keeps coverage
+            return replace(base, shape="same", alias=self.S(e), dt=F_ if what in ("mean", "std", "var", "median") else base.dt, rng=(None, None), sorted0=False, maskof=E, dataof=E,
+                           M=E if base.layermask else base.M, layermask=False)
         if base.shape == "rankdep" and ax0:
             self.finding("shape", e, "layer-axis reduction of a rank-dependent stack (numpy.vstack, A10)", fr)
             return replace(base, shape="unknown", alias=self.S(e), dt=F_, rng=(None, None), sorted0=False)
@@ -1771,7 +1832,8 @@ class ArrayInterp(Interp):
                 el = self.part_elem(a0)
                 kind = el.kind if ".ma." in qn else "plain"
                 pc = el.Pc | (el.D if el.kind == "masked" and kind == "plain" else E)
-                return replace(el, shape=shape, alias=S(), kind=kind, M=el.M if kind == "masked" else (el.M if el.isbool else E), Pc=pc, maskof=E, dataof=E, rng=(None, None))
+                return replace(el, shape=shape, alias=S(), kind=kind, M=el.M if kind == "masked" else (el.M if el.isbool else E), Pc=pc, maskof=E, dataof=E, rng=(None, None),
+                               layermask=kind == "masked" and len(el.M) > 1)
             if isinstance(a0, Lst) and a0.items is not None and all(isinstance(x, Arr) for x in a0.items) and a0.items:
                 r = a0.items[0]
                 for x in a0.items[1:]:
@@ -1799,8 +1861,17 @@ class ArrayInterp(Interp):
             if isinstance(a0, Scal):
                 return a0
             return Scal()
+        if qn in ("numpy.unique", "numpy.ma.unique"):
+            if isinstance(a0, Arr):
+                vals = replace(a0, alias=S(), shape="flat", maskof=E, dataof=E, rng=(None, None))
+                extra = [k for k in ("return_index", "return_inverse", "return_counts") if isinstance(K.get(k), Other) and K[k].info is True]
+                if not extra:
+                    return vals
+                pos = replace(a0, alias=S(), shape="unknown", dt=I_, maskof=E, dataof=E, rng=(None, None), kind="plain", M=E)
+                return Lst("mixed", items=(vals,) + tuple(pos for _ in extra))
+            return Other("opaque")
         if qn in ("numpy.sort", "numpy.ma.sort", "numpy.argsort", "numpy.ravel", "numpy.reshape", "numpy.transpose", "numpy.flip", "numpy.roll", "numpy.cumsum", "numpy.diff",
-                  "numpy.unique", "numpy.take", "numpy.squeeze", "numpy.expand_dims", "numpy.swapaxes", "numpy.moveaxis", "numpy.tile", "numpy.repeat", "numpy.flipud", "numpy.fliplr"):
+                  "numpy.take", "numpy.squeeze", "numpy.expand_dims", "numpy.swapaxes", "numpy.moveaxis", "numpy.tile", "numpy.repeat", "numpy.flipud", "numpy.fliplr"):
             if isinstance(a0, Arr):
                 ax = K.get("axis", A[1] if len(A) > 1 else None)
                 if qn in ("numpy.sort", "numpy.ma.sort") and a0.shape == "stacked" and isinstance(ax, Scal) and ax.const == 0:
@@ -1941,9 +2012,11 @@ class ArrayInterp(Interp):
             shape = a0.shape
             const = a0.constmask if a0.kind == "masked" else True
             pc = a0.Pc
+            malias = a0.maskalias if a0.kind == "masked" else E
             if isinstance(mask, Arr):
                 cov = cov | mask.M
                 const = const and mask.constmask
+                malias = malias | mask.maskof | frozenset(t for t in mask.alias if is_input_token(t))  # A14: the mask argument is not copied
                 if mask.shape != a0.shape:
                     shape = "rankdep" if "rankdep" in (mask.shape, a0.shape) else "unknown"
             elif mask is not None and not (isinstance(mask, Other) and mask.tag == "none"):
@@ -1952,17 +2025,21 @@ class ArrayInterp(Interp):
             copyv = K.get("copy")
             shares = asarr or not (isinstance(copyv, Other) and copyv.info is True)
             return replace(a0, kind="masked", M=cov, shape=shape, alias=(a0.alias | a0.dataof | S) if shares else S, dt=dt or a0.dt,
-                           dtprov=a0.dtprov if dt is None else E, constmask=const, maskof=E, dataof=E, rng=(None, None), Pc=pc, isbool=False if a0.isbool and dt else a0.isbool)
+                           dtprov=a0.dtprov if dt is None else E, constmask=const, maskof=E, dataof=E, rng=(None, None), Pc=pc, isbool=False if a0.isbool and dt else a0.isbool,
+                           maskalias=malias if isinstance(mask, Arr) else (a0.maskalias if a0.kind == "masked" and shares else E))
         if isinstance(a0, Lst) and a0.what == "arrs" and a0.L:
             el = self.part_elem(a0)
-            return replace(el, shape="stacked", alias=S, maskof=E, dataof=E, rng=(None, None))
+            if isinstance(mask, Arr):
+                return replace(el, shape="stacked", alias=S, maskof=E, dataof=E, rng=(None, None), kind="masked", M=mask.M, layermask=False)
+            return replace(el, shape="stacked", alias=S, maskof=E, dataof=E, rng=(None, None), layermask=el.kind == "masked" and len(el.M) > 1)
         if isinstance(a0, Lst) and a0.items is not None and a0.items and all(isinstance(x, Arr) for x in a0.items):
             r = a0.items[0]
             for x in a0.items[1:]:
                 r = self.binop_arr(r, x, ast.Add(), e, fr)
             return replace(r, shape="stacked", alias=S)
         cov = mask.M if isinstance(mask, Arr) else E
-        return Arr(kind="masked", alias=S, shape="same", dt=dt or IF_, dtprov=frozenset({"param"}) if dt else E, M=cov, constmask=not isinstance(mask, Arr))
+        malias = (mask.maskof | frozenset(t for t in mask.alias if is_input_token(t))) if isinstance(mask, Arr) else E
+        return Arr(kind="masked", alias=S, shape="same", dt=dt or IF_, dtprov=frozenset({"param"}) if dt else E, M=cov, constmask=not isinstance(mask, Arr), maskalias=malias)
 
     def call_reduce(self, e, A, fr):
         if len(A) < 2:
